@@ -140,6 +140,10 @@ def split_case(args):
     n = rng.randint(1, 4)
     nlines = rng.choice([0, 1, n - 1 if n > 1 else 1, n, n + 1, 2 * n, 2 * n + 1, 3 * n])
     lines = ["line %d of the file" % j if rng.random() < 0.8 else "" for j in range(nlines)]
+    if lines and i % 5 == 4:
+        # lines longer than common reader buffers (4 KiB, 64 KiB is bufio.Scanner's own limit: stay below it)
+        k = rng.randrange(len(lines))
+        lines[k] = "".join("%07d." % (j * 8) for j in range(rng.choice([513, 700, 1250])))
     eol = rng.choice(["\n", "\n", "\r\n"])
     content = eol.join(lines) + (eol if (lines and rng.random() < 0.7) else "")
     sp = t3.Spec(maxtasks=2, bufsize=rng.choice([1, 128]))
@@ -208,6 +212,8 @@ def misc_case(args):
         t = "".join(l + "\n" for l in ls)
         return t[:-1] if t and rng.random() < 0.3 else t
     ptext = text()
+    if i % 4 == 3:
+        ptext = "short\n" + "".join("%07d." % (j * 8) for j in range(rng.choice([513, 2000]))) + "\nlast\n"
     plines = ptext.splitlines()
     sp.files["params.txt"] = ptext
     f = sp.raw("COMP f2p %s %s" % (hx("f2p"), hx("params.txt")))
